@@ -9,12 +9,14 @@ open Drv
 structure DState where
   set : Drv.Set.St := none
   ge : Drv.GErrClone.St := []
+  gx : Drv.GErrClone.XSt := {}
 
 def step (st : DState) (line : String) : DState × String :=
   match words line with
   | "bs" :: rest => (st, BitSet.handle rest)
   | "set" :: rest => let r := Drv.Set.handle st.set rest; ({ st with set := r.1 }, r.2)
   | "ge" :: rest => let r := Drv.GErrClone.handle st.ge rest; ({ st with ge := r.1 }, r.2)
+  | "gx" :: rest => let r := Drv.GErrClone.handleX st.gx rest; ({ st with gx := r.1 }, r.2)
   | "case" :: rest => ({}, joinSp ("case" :: rest))
   | "echo" :: rest => (st, joinSp rest)
   | _ => (st, "bad-op")
